@@ -26,7 +26,7 @@ type flowCtx struct {
 	r        *kernel.Run
 	srv      *World
 	node     *World
-	target   *World // the side whose storage is faulted
+	target   *World    // the side whose storage is faulted
 	by       *nodeSide // bystander: another node's record that must never change
 	id       *Ident
 	a        *nodeSide
